@@ -12,7 +12,9 @@ package main
 
 import (
 	"encoding/json"
+	"errors"
 	"fmt"
+	"github.com/bluenviron/gortsplib/v5/pkg/liberrors"
 	"math/rand"
 	"net"
 	"sync"
@@ -183,6 +185,9 @@ type c01rstate struct {
 	lossy     atomic.Bool
 	streaming bool
 	gone      bool
+	// a barrier ended with packets still owed and no write error reported: the trace already
+	// holds what Level A rejects
+	behind bool
 }
 
 func c01run(sc *c01scn, s *vt.Sink) error {
@@ -216,7 +221,9 @@ func c01run(sc *c01scn, s *vt.Sink) error {
 	// payloads up to the largest one that fits the default maximum packet size (1472: 12 bytes of
 	// RTP header, 10 of SRTP authentication tag when secure)
 	maxPL := 1460
-	if sc.TLS {
+	if sc.TLS && sc.Seed%4 >= 2 {
+		// (the other secure scenarios keep 1460: packets of the last 10 sizes do not fit beside the
+		// tag, their write must be refused and nothing of them may reach a reader)
 		maxPL = 1450
 	}
 	spec := &bed.PacketSpec{MaxPL: maxPL, ArbSeq: sc.Arb, Wide: sc.Seed%2 == 0}
@@ -334,7 +341,10 @@ func c01run(sc *c01scn, s *vt.Sink) error {
 		tr.Emit("wbeg", "k", k, "id", id)
 		err := bd.Stream.WritePacketRTP(bd.Desc.Medias[streams[k].m], pkt)
 		tr.Emit("wend", "k", k, "id", id)
-		if err != nil {
+		if err != nil && sc.TLS && pkt.MarshalSize() > 1472-10 {
+			// too big for a secure stream: refused as a whole
+			tr.Emit("wrefused", "k", k, "id", id)
+		} else if err != nil {
 			for _, r := range readers {
 				r.lossy.Store(true)
 				tr.Emit("werr", "r", r.idx)
@@ -369,6 +379,11 @@ func c01run(sc *c01scn, s *vt.Sink) error {
 				break // something was reported lost: do not wait for it
 			}
 			time.Sleep(200 * time.Microsecond)
+		}
+		for k := 1; k <= nk; k++ {
+			if r.last[k].Load() < int64(begun[k]) && !r.lossy.Load() {
+				r.behind = true
+			}
 		}
 		tr.Emit("barrier", "r", r.idx)
 	}
@@ -410,7 +425,18 @@ func c01run(sc *c01scn, s *vt.Sink) error {
 				case 0:
 					tr.Emit("stop", "r", r.idx)
 					if _, err := r.rd.C.Pause(); err != nil {
-						return fmt.Errorf("c01: pause reader %d: %w", r.idx, err)
+						var te liberrors.ErrClientRequestTimedOut
+						var ne net.Error
+						if errors.As(err, &te) || (errors.As(err, &ne) && ne.Timeout()) {
+							if r.behind {
+								return nil // the scenario ends here; what the trace holds so far is judged
+							}
+							return fmt.Errorf("c01: pause reader %d: %w", r.idx, err) // load: no verdict
+						}
+						// a playing reader cannot pause although nothing timed out: what it was sent
+						// made its connection unusable (no Level A action accepts this event)
+						tr.Emit("reader_broken", "r", r.idx, "op", "pause", "why", fmt.Sprintf("%.60q", err.Error()))
+						return nil
 					}
 					r.streaming = false
 				case 1:
